@@ -125,6 +125,7 @@ structure ArchOk (w : World) (a : Arch) : Prop where
   mask_len : a.mask.length = w.n
   handle_lt : a.handle < w.next
   cols_len : a.cols.length = a.mask.count
+  cols_all_len : ∀ c ∈ a.cols, c.length = a.ids.length
   cols_ok : ∀ (k : Nat) (c : List Val) (ty : Nat), a.cols[k]? = some c → a.mask.comps[k]? = some ty →
       c.length = a.ids.length ∧ ∀ v ∈ c, v.ty = ty
   rows : ∀ (r : Nat) (id : Ident), a.ids[r]? = some id →
@@ -154,8 +155,8 @@ theorem archOk_iff {w : World} {a : Arch} : archOk w a = true ↔ ArchOk w a := 
   simp only [Bool.and_eq_true, beq_iff_eq, decide_eq_true_eq, zipWith_all_iff]
   simp only [List.all_eq_true, List.mem_range]
   constructor
-  · rintro ⟨⟨⟨⟨⟨h1, h2⟩, h3⟩, h4⟩, h5⟩, h6⟩
-    refine ⟨h1, h2, h3, ?_, ?_, by simpa using h6⟩
+  · rintro ⟨⟨⟨⟨⟨⟨h1, h2⟩, h3⟩, h3b⟩, h4⟩, h5⟩, h6⟩
+    refine ⟨h1, h2, h3, fun c hc => by simpa using h3b c hc, ?_, ?_, by simpa using h6⟩
     · intro k c ty hc hty
       have := h4 k c ty hc hty
       simp only [colOk, Bool.and_eq_true, beq_iff_eq, List.all_eq_true] at this
@@ -164,7 +165,7 @@ theorem archOk_iff {w : World} {a : Arch} : archOk w a = true ↔ ArchOk w a := 
       have hlt : r < a.ids.length := (List.getElem?_eq_some_iff.mp hr).1
       exact (rowOk_iff.mp (h5 r hlt)) id hr
   · intro h
-    refine ⟨⟨⟨⟨⟨h.mask_len, h.handle_lt⟩, h.cols_len⟩, ?_⟩, ?_⟩, by simpa using h.foreign⟩
+    refine ⟨⟨⟨⟨⟨⟨h.mask_len, h.handle_lt⟩, h.cols_len⟩, fun c hc => by simpa using h.cols_all_len c hc⟩, ?_⟩, ?_⟩, by simpa using h.foreign⟩
     · intro k c ty hc hty
       obtain ⟨h1, h2⟩ := h.cols_ok k c ty hc hty
       simp only [colOk, Bool.and_eq_true, beq_iff_eq, List.all_eq_true]
